@@ -193,5 +193,84 @@ class HugePush(Family):
         return 'ok', True, 2
 
 
+PREUSE = ('none', 'next_iter', 'next_raw_iter', 'is_push_only', 'list', 'sigops', 'is_p2sh', 'hash_other_tx')
+HTS12 = [0x01, 0x02, 0x03, 0x81, 0x82, 0x83, 0x00, 0x41, 0x22, 0x43, 0xc2, 0xff]
+
+
+class StatefulUse(Family):
+    """call . edit . call histories on ONE mutable transaction object and ONE script object: the script object has been
+    used before (partly or fully iterated, predicates, sig-op count, an earlier hash for another transaction); the digest
+    is computed, the transaction is edited in place (every edit of the catalogue in turn, no undo), and the same call is
+    repeated - every digest must be that of the fields at the time of the call"""
+    name = 'hash_edit_hash_on_one_object'
+    nontrivial_rule = 'every case'
+
+    def shards(self, tier):
+        return [(nin, nout, pre) for nin, nout in ((1, 1), (2, 2), (3, 1)) for pre in PREUSE]
+
+    def cases(self, shard, tier):
+        nin, nout, pre = shard
+        for si in range(len(SCRIPTS)):
+            if si in (16, 17) and tier == 'quick' and pre not in ('none', 'is_push_only'):
+                continue
+            for idx in range(nin):
+                yield (nin, nout, pre, si, idx)
+
+    def check(self, case):
+        from bitcoin.core.script import RawSignatureHash, SignatureHash, SIGVERSION_BASE, CScript
+        import copy
+        nin, nout, pre, si, idx = case
+        m = C.default_tx(nin, nout)
+        tx = C.lib_tx(m, mutable=True)
+        script = SCRIPTS[si]
+        cs = CScript(script)
+        try:
+            if pre == 'next_iter':
+                next(iter(cs), None)
+            elif pre == 'next_raw_iter':
+                next(cs.raw_iter(), None)
+            elif pre == 'is_push_only':
+                cs.is_push_only()
+            elif pre == 'list':
+                list(cs)
+            elif pre == 'sigops':
+                cs.GetSigOpCount(True)
+                cs.GetSigOpCount(False)
+            elif pre == 'is_p2sh':
+                cs.is_p2sh()
+                cs.is_witness_scriptpubkey()
+            elif pre == 'hash_other_tx':
+                RawSignatureHash(cs, C.lib_tx(C.default_tx(2, 1)), 0, 1)
+        except Exception as e:  # noqa
+            raise Viol('pre-use %s of a parsing script raised' % pre, None, repr(e))
+
+        order = [list(HTS12)]
+
+        def probe(when):
+            # alternate directions: the last call before an edit and the first call after it have identical arguments
+            hts = order[0]
+            order[0] = hts[::-1]
+            for ht in hts:
+                want, werr = SH.legacy(script, m, idx, ht)
+                h, err = RawSignatureHash(cs, tx, idx, ht)
+                if h != want or (err is not None) != werr:
+                    raise Viol('RawSignatureHash %s (script #%d used before: %s; idx=%d, hashtype=%#04x): digest is not that of the current fields' % (when, si, pre, idx, ht),
+                               (want.hex(), werr), (bytes(h).hex(), err))
+                if si != 18 and not werr:
+                    h2 = SignatureHash(cs, tx, idx, ht, sigversion=SIGVERSION_BASE)
+                    if h2 != want:
+                        raise Viol('SignatureHash %s (script #%d, idx=%d, hashtype=%#04x)' % (when, si, idx, ht), want.hex(), bytes(h2).hex())
+        probe('first call')
+        probe('second identical call')
+        n = 2
+        for name, fn in C.inplace_edits(m):
+            if name == 'pop_in' and len(m['vin']) - 1 <= idx:
+                continue
+            fn(tx, m)
+            probe('after in-place edit %s' % name)
+            n += 1
+        return 'ok', True, n * len(HTS12)
+
+
 def families(tier):
-    return [Legacy(), ManyInputs(), HugePush()]
+    return [Legacy(), ManyInputs(), HugePush(), StatefulUse()]
